@@ -43,6 +43,13 @@
 //! per-datagram `local_address`; inbound broadcast / multicast destinations; datagrams that
 //! can only match an endpoint-less socket (udp port 0, icmp error).
 //!
+//! Besides the BFS runs there is one scripted family, "largest datagram" (`largest_run`): device
+//! MTU 70000, the largest datagram the IP length fields can express and one octet more, each
+//! with a normal datagram queued behind it; poll must not panic (C09/<kind>/tx-largest/panic/
+//! <site>), the largest one is transmitted once, unmodified, with consistent length fields,
+//! the impossible one never reaches the wire (.../impossible-datagram-on-the-wire) and does
+//! not block the queue (.../blocked-behind-impossible-datagram).
+//!
 //! Emitted frames are parsed by `dgram/frames.rs` + `wirecheck` (independent of
 //! `smoltcp::wire`); stimulus frames are built by the same independent code.
 //!
@@ -563,6 +570,15 @@ struct RxEntry {
     to: To,
     /// what recv must return: udp payload / ICMP message / IP packet
     bytes: Vec<u8>,
+}
+
+/// hex dump for messages; long buffers (the "largest datagram" family) are abbreviated
+fn hx(b: &[u8]) -> String {
+    if b.len() <= 96 {
+        hex(b)
+    } else {
+        format!("{}..({} octets)..{}", hex(&b[..32]), b.len(), hex(&b[b.len() - 8..]))
+    }
 }
 
 fn oa(a: &Option<Addr>) -> String {
@@ -1098,7 +1114,7 @@ impl DgH {
                 return;
             }
             fr::L3::Bad(e) => {
-                let d = format!("frame {} cannot be parsed: {}", hex(f), e);
+                let d = format!("frame {} cannot be parsed: {}", hx(f), e);
                 self.viol(out, "tx-frame", "unparsable", d, true);
                 return;
             }
@@ -1111,7 +1127,7 @@ impl DgH {
             info.dst,
             info.proto,
             payload.len(),
-            hex(payload),
+            hx(payload),
             if info.more_frags || info.frag_offset != 0 { format!(" [fragment offset {} MF={}]", info.frag_offset, info.more_frags as u8) } else { String::new() }
         );
         // IPv4 header checksum (RFC 1071 over the header, wirecheck) of every packet of the
@@ -1131,7 +1147,7 @@ impl DgH {
                 info.frag_offset,
                 info.more_frags as u8,
                 info.total_len,
-                hex(&packet[..info.header_len])
+                hx(&packet[..info.header_len])
             );
             let cause = if info.more_frags && info.frag_offset != 0 {
                 "ipv4-header-checksum-of-middle-fragment"
@@ -1171,7 +1187,7 @@ impl DgH {
         let differs = |h: &DgH, e: &TxEntry| if frag_first { h.tx_prefix_diff(e, &info, payload) } else { h.tx_diff(e, &info, payload) };
         let pos = (0..self.tx_model.len()).find(|&i| differs(self, &self.tx_model[i]).is_none());
         let Some(pos) = pos else {
-            let desc = format!("{} -> {} {}", info.src, info.dst, hex(payload));
+            let desc = format!("{} -> {} {}", info.src, info.dst, hx(payload));
             if self.tx_model.is_empty() {
                 if self.last_sent.as_deref() == Some(&packet[..]) {
                     self.viol(out, "tx-once", "duplicate-transmission", format!("datagram {} transmitted a second time (nothing queued)", desc), true);
@@ -1186,7 +1202,7 @@ impl DgH {
                     "datagram {} on the wire matches no pending accepted datagram; oldest pending: to {} bytes {}{}",
                     desc,
                     self.a(head.dst),
-                    hex(&head.bytes),
+                    hx(&head.bytes),
                     if dup { " (identical to the previously transmitted frame)" } else { "" }
                 );
                 if dup {
@@ -1351,7 +1367,7 @@ impl DgH {
         };
         match res {
             Ok(()) => {
-                vlog!("      send -> Ok (datagram #{} {})", label, hex(&bytes));
+                vlog!("      send -> Ok (datagram #{} {})", label, hx(&bytes));
                 stat(O::SendOk);
                 if wrote != usize::MAX && wrote != n {
                     let d = format!("send_with closure wrote {} bytes but {} were reported", n, wrote);
@@ -1493,8 +1509,8 @@ impl DgH {
                 }
             }
             Got::Data { bytes, src, sport, local } => {
-                vlog!("      {} -> {} bytes {} from {}:{:?} local {:?}", call, bytes.len(), hex(&bytes), oa(&src), sport, local.as_ref().map(oa));
-                let got_desc = format!("{} bytes {} (src {}:{:?}, local {:?})", bytes.len(), hex(&bytes), oa(&src), sport, local.as_ref().map(oa));
+                vlog!("      {} -> {} bytes {} from {}:{:?} local {:?}", call, bytes.len(), hx(&bytes), oa(&src), sport, local.as_ref().map(oa));
+                let got_desc = format!("{} bytes {} (src {}:{:?}, local {:?})", bytes.len(), hx(&bytes), oa(&src), sport, local.as_ref().map(oa));
                 let Some(e) = head else {
                     if self.last_recv.as_deref() == Some(&bytes[..]) {
                         let d = format!("{} returned {} although every delivered datagram was read: the datagram read last comes a second time", call, got_desc);
@@ -1507,7 +1523,7 @@ impl DgH {
                 };
                 if let Some(aspect) = self.rx_diff(&e, &bytes, &src, &sport, &local) {
                     let later = (1..self.rx_model.len()).find(|&i| self.rx_diff(&self.rx_model[i], &bytes, &src, &sport, &local).is_none());
-                    let want = format!("oldest unread datagram #{}: {} bytes {} carried by a frame from {} to {}", e.label, e.bytes.len(), hex(&e.bytes), self.a(e.from), to_addr(self.cfg.v6, e.to).0);
+                    let want = format!("oldest unread datagram #{}: {} bytes {} carried by a frame from {} to {}", e.label, e.bytes.len(), hx(&e.bytes), self.a(e.from), to_addr(self.cfg.v6, e.to).0);
                     if let Some(i) = later {
                         let d = format!("{} returned datagram #{} ({}) before the {}", call, self.rx_model[i].label, got_desc, want);
                         self.viol(out, "rx-order", "overtook-older-datagram", d, true);
@@ -2346,6 +2362,115 @@ fn configs(tier: Tier) -> Vec<(Cfg, usize)> {
     v
 }
 
+// ---------------------------------------------------------------------------------------
+// "largest datagram" family (scripted single runs)
+// ---------------------------------------------------------------------------------------
+
+/// Device MTU 70000 (+14 on Ethernet), buffers that hold the largest datagram plus a normal one.
+/// `above == false`: the largest datagram the IP length fields can express (IPv4 total length
+/// 65535; IPv6 payload length 65535) must be transmitted exactly once, unmodified, with
+/// consistent length fields.  `above == true`: one octet more (not expressible for raw
+/// sockets, whose packets carry their own length field): send may refuse it, or it is dropped;
+/// it must never reach the wire in any form, poll must not panic, and a normal datagram
+/// queued behind it must still be transmitted.
+fn largest_scenarios() -> Vec<(Cfg, bool)> {
+    let mut v = vec![];
+    for kind in [Kind::Udp, Kind::Icmp, Kind::Raw] {
+        for v6 in [false, true] {
+            for eth in [false, true] {
+                for above in [false, true] {
+                    if above && kind == Kind::Raw {
+                        continue;
+                    }
+                    v.push((Cfg { phase: Phase::Tx, kind, eth, v6, slots: 4, k: 70_100, via_b: false, ip_mtu: 70_000, ck: Ck::Default }, above));
+                }
+            }
+        }
+    }
+    v
+}
+
+/// application size of the largest datagram the IP length fields can express
+fn largest_size(cfg: &Cfg) -> usize {
+    match (cfg.kind, cfg.v6) {
+        (Kind::Udp, false) => 65_535 - 20 - 8,
+        (Kind::Icmp, false) => 65_535 - 20,
+        (Kind::Raw, false) => 65_535,
+        (Kind::Udp, true) => 65_535 - 8,
+        (Kind::Icmp, true) => 65_535,
+        (Kind::Raw, true) => 40 + 65_535,
+    }
+}
+
+fn largest_run(cfg: &Cfg, above: bool) -> (Vec<Viol>, serde_json::Value) {
+    use std::cell::RefCell;
+    use std::panic::{catch_unwind, AssertUnwindSafe};
+    let size = largest_size(cfg) + above as usize;
+    let step = RefCell::new(String::from("set-up"));
+    let raw: RefCell<Vec<Viol>> = RefCell::new(vec![]);
+    let info = RefCell::new(serde_json::Map::new());
+    let r = catch_unwind(AssertUnwindSafe(|| {
+        let mut h = DgH::new(cfg);
+        let mut out = vec![];
+        *step.borrow_mut() = format!("send of the {}-octet datagram", size);
+        h.apply(&Ev::Send { size, dst: Who::A, api: Api::SendSlice, malformed: false, local: None }, &mut out);
+        let accepted = h.tx_model.len() == 1;
+        info.borrow_mut().insert("big_datagram_accepted_by_send".into(), json!(accepted));
+        if above && accepted {
+            // it cannot be transmitted as it is: treated like a datagram that can never be
+            // delivered (may be dropped; nothing on the wire may claim to be it)
+            h.tx_model.back_mut().unwrap().malformed = true;
+        }
+        *step.borrow_mut() = "send of the normal datagram queued behind it".into();
+        h.apply(&Ev::Send { size: cfg.hdr() + 3, dst: Who::A, api: Api::SendSlice, malformed: false, local: None }, &mut out);
+        raw.borrow_mut().append(&mut out);
+        for i in 0..3 {
+            *step.borrow_mut() = format!("Interface::poll #{}", i + 1);
+            h.apply(&Ev::Poll, &mut out);
+            raw.borrow_mut().append(&mut out);
+        }
+        *step.borrow_mut() = "drain (poll to quiescence)".into();
+        h.apply(&Ev::Drain, &mut out);
+        raw.borrow_mut().append(&mut out);
+        info.borrow_mut().insert("datagrams_still_pending".into(), json!(h.tx_model.len()));
+    }));
+    let kind = cfg.kind.name();
+    let mut viols = vec![];
+    if let Err(e) = r {
+        let d = format!(
+            "[{:?}] panic during {}: {} at {} ({} datagram of {} octets: {})",
+            cfg,
+            step.borrow(),
+            panic_msg(e),
+            last_panic_loc(),
+            kind,
+            size,
+            if above { "one octet more than the IP length field can express" } else { "the largest the IP length field can express" }
+        );
+        vlog!("      !! {}", d);
+        viols.push(Viol::new(format!("C09/{}/tx-largest/panic/{}", kind, panic_site()), d));
+    }
+    for v in raw.into_inner() {
+        let parts: Vec<&str> = v.sig.splitn(4, '/').collect();
+        let sig = if parts.len() < 4 || parts[0] != "C09" {
+            v.sig.clone()
+        } else if above && parts[2] == "tx-liveness" && parts[3].starts_with("blocked-behind") {
+            format!("C09/{}/tx-largest/blocked-behind-impossible-datagram", kind)
+        } else if above && parts[2].starts_with("tx-") && parts[2] != "tx-liveness" {
+            format!("C09/{}/tx-largest/impossible-datagram-on-the-wire", kind)
+        } else {
+            format!("C09/{}/tx-largest/{}-{}", kind, parts[2], parts[3])
+        };
+        viols.push(Viol::new(sig, format!("{} [{}; datagram of {} octets]", v.detail, v.sig, size)));
+    }
+    let mut m = info.into_inner();
+    m.insert("config".into(), json!(format!("{:?}", cfg)));
+    m.insert("scenario".into(), json!(if above { "one octet above the largest expressible datagram" } else { "largest expressible datagram" }));
+    m.insert("datagram_octets".into(), json!(size));
+    m.insert("violations".into(), json!(viols.iter().map(|v| v.sig.clone()).collect::<Vec<_>>()));
+    (viols, serde_json::Value::Object(m))
+}
+
 pub fn run(tier: Tier) -> i32 {
     let mut rep = Report::new("C09", tier);
     rep.assumptions.push("reference model = two FIFO queues of (metadata, bytes); trusted".into());
@@ -2410,6 +2535,19 @@ pub fn run(tier: Tier) -> i32 {
     for (_, (_, smp)) in deepest_sample {
         rep.samples.push(smp);
     }
+    // "largest datagram" family: scripted single runs, not BFS
+    let mut largest = vec![];
+    for (cfg, above) in largest_scenarios() {
+        let (viols, summary) = largest_run(&cfg, above);
+        rep.add_count("evaluations", 1);
+        for v in viols {
+            if !rep.found.iter().any(|g| g.viol.sig == v.sig) {
+                rep.found.push(Found { viol: v, replay: json!({"harness": "dgram-largest", "config": format!("{:?}", cfg), "above": above}) });
+            }
+        }
+        largest.push(summary);
+    }
+    rep.cov("largest_datagram_family", json!(largest));
     // MACHINERY pseudo-violations are machinery errors, not findings
     let (mach, real): (Vec<Found>, Vec<Found>) = std::mem::take(&mut rep.found).into_iter().partition(|f| f.viol.sig.starts_with("MACHINERY/"));
     rep.found = real;
@@ -2438,6 +2576,7 @@ pub fn run(tier: Tier) -> i32 {
     rep.cov(
         "alphabet",
         json!({
+            "largest_datagram": "scripted runs (not BFS): device MTU 70000, all three kinds, IPv4/IPv6, Medium::Ip and Ethernet: the largest datagram the IP length fields can express (IPv4 total length 65535, IPv6 payload length 65535) and one octet more, each with a normal datagram queued behind it; poll x3 + drain under catch_unwind",
             "small_rings": "4 metadata slots, payload ring 16 / 24 (+2*hdr) octets, sizes {2,6,8}+hdr and capacity: rx and tx alphabets (wrap-around with exact fit, one short, one over)",
             "tight_links": "IPv4, tx alphabet, IP MTU 36 (= 4 mod 8) and 34: send sizes {M-1, M, M+1, M+17 (3 resp. 4 fragments)} with M = the datagram whose IP packet is exactly the IP MTU; a datagram that fits must leave unfragmented (MF=0, offset 0); for M+1 the first fragment stands for the datagram, later fragments are only counted (C12)",
             "send_local_address": "udp: the interface owns two addresses per family; extra sends with UdpMetadata::local_address = Some(first own address) / Some(second own address) (to A, and to the unresolved B on Ethernet), offered while bound by port and while bound by (first address, port); expected IP source = local_address if set, else the bound address, else any own address",
@@ -2461,6 +2600,19 @@ pub fn replay(art: &serde_json::Value) -> i32 {
         return 2;
     };
     println!("configuration: {:?} (capacity {} bytes, {} slots)", cfg, cfg.cap(), cfg.slots);
+    if art["replay"]["harness"].as_str() == Some("dgram-largest") {
+        VERBOSE.store(true, Ordering::Relaxed);
+        let (viols, summary) = largest_run(&cfg, art["replay"]["above"].as_bool().unwrap_or(false));
+        VERBOSE.store(false, Ordering::Relaxed);
+        println!("summary: {}", summary);
+        for v in &viols {
+            println!("violation: {} :: {}", v.sig, v.detail);
+        }
+        if viols.is_empty() {
+            println!("no violation on replay");
+        }
+        return if viols.is_empty() { 0 } else { 1 };
+    }
     if art["replay"]["list_events"].as_bool() == Some(true) {
         // convenience for writing artefacts by hand: the alphabet with its choice indices
         // (NeighReply / Refuse are filtered by `enabled()` when not applicable)
